@@ -49,10 +49,10 @@ Definition healthy_b (checks : list hcheck) (status : list str) (strict : bool) 
 Definition advertises (prefix : str) (tags : list str) (t : str) : Prop :=
   exists raw, In raw tags /\ t = trim_space raw /\ has_prefix t prefix = true.
 
-(* an instance carries the tag prefix in the sense of the tag filter: all of its own
-   checks report tags one of which starts, untrimmed, with the prefix *)
+(* a check reports a tag that, trimmed, starts with the prefix (in Consul every check of a
+   service carries the tags of the service) *)
 Definition tagged (prefix : str) (c : hcheck) : bool :=
-  existsb (fun t => has_prefix t prefix) (c_tags c).
+  existsb (fun t => has_prefix (trim_space t) prefix) (c_tags c).
 
 (* ---- which catalog entries ought to be routed ---- *)
 Definition routed_b (prefix : str) (status : list str) (strict : bool)
@@ -64,7 +64,7 @@ Definition expected_lines (prefix : str) (status : list str) (strict : bool)
            (checks : list hcheck) (catalog : list centry) : list str :=
   flat_map (fun e => if routed_b prefix status strict checks e then e_cmds e else []) catalog.
 
-(* finding regions of the service pipeline *)
+(* finding region of the service pipeline *)
 (* 1: two different instances share the key Node + "." + ServiceID *)
 Definition inst_eqb (a b : str * str) : bool := beq (fst a) (fst b) && beq (snd a) (snd b).
 Definition key_collision_b (insts : list (str * str)) : bool :=
@@ -72,14 +72,6 @@ Definition key_collision_b (insts : list (str * str)) : bool :=
                                       && beq (inst_key (fst a) (snd a)) (inst_key (fst b) (snd b))) insts) insts.
 Definition instances_of (checks : list hcheck) (catalog : list centry) : list (str * str) :=
   map (fun c => (c_node c, c_sid c)) checks ++ map (fun e => (e_node e, e_sid e)) catalog.
-(* 2: a tag is a route tag only after trimming: routecmd.build would route it, the tag
-      filter of checksWithTagPrefix drops the instance *)
-Definition untrimmed_tag_b (prefix : str) (tags : list str) : bool :=
-  existsb (fun t => has_prefix (trim_space t) prefix && negb (has_prefix t prefix)) tags.
-Definition untrimmed_region_b (prefix : str) (checks : list hcheck) (catalog : list centry) : bool :=
-  existsb (fun c => untrimmed_tag_b prefix (c_tags c)) checks
-  || existsb (fun e => untrimmed_tag_b prefix (e_tags e)) catalog.
-
 (* ---- the watch loop: which table ought to be active ---- *)
 Fixpoint last_svc (h : list event) (d : str) : str :=
   match h with
